@@ -754,7 +754,27 @@ func cidOf(sid, srv string) string {
 }
 
 func (e *engine) runC36Call() {
-	e.rep.Require("call.served", "call.noserver", "call.invalid", "call.serverid", "call.decode")
+	e.rep.Require("call.served", "call.noserver", "call.invalid", "call.serverid", "call.decode",
+		"call.waitone.served", "call.waitone.invalid", "call.waitone.serverid", "call.waitone.decode", "call.waitone.late-provider")
+	e.runC36CallW(false)
+	// waitOne = true: CallRpcService waits for a provider instead of reporting "no server": the
+	// registered pairs, the refusals that come before the lookup, and a provider that is
+	// registered only after the call reached the bus
+	e.runC36CallW(true)
+}
+
+func (c *spyCtrl) saw(k [2]string) bool {
+	c.mtx.Lock()
+	defer c.mtx.Unlock()
+	for _, s := range c.seen {
+		if s == k {
+			return true
+		}
+	}
+	return false
+}
+
+func (e *engine) runC36CallW(waitOne bool) {
 	busPlacedN++
 	pfx := fmt.Sprintf("verif-c%d-", busPlacedN)
 	var last [2]string
@@ -778,10 +798,6 @@ func (e *engine) runC36Call() {
 		return
 	}
 	defer rel()
-	var provEnc []string
-	for _, p := range provided {
-		provEnc = append(provEnc, hx(p[0])+":"+hx(p[1]))
-	}
 	isProvided := func(sid, srv string) bool {
 		for _, p := range provided {
 			if p[0] == sid && p[1] == srv {
@@ -793,9 +809,21 @@ func (e *engine) runC36Call() {
 	callN := 0
 	one := func(cb cbSpec, cid string, sid, srv string, wellFormed bool) {
 		callN++
+		var provEnc []string
+		for _, p := range provided {
+			provEnc = append(provEnc, hx(p[0])+":"+hx(p[1]))
+		}
 		op := fmt.Sprintf("dispatch.call cid=%s cb=%s prov=%s", hx(cid), cb.enc, strings.Join(provEnc, ","))
+		if waitOne {
+			op += " w=1"
+			if wellFormed {
+				if wsrv, wok := cb.want(srv); sid != "" && wok && !isProvided(sid, wsrv) {
+					return // nobody provides it: the call would wait for a provider for ever
+				}
+			}
+		}
 		model := e.m.Query(op)
-		accessServer := bifrost_rpc_access.NewAccessRpcServiceServer(e.bus, false, cb.fn)
+		accessServer := bifrost_rpc_access.NewAccessRpcServiceServer(e.bus, waitOne, cb.fn)
 		mux := srpc.NewMux()
 		if err := bifrost_rpc_access.SRPCRegisterAccessRpcService(mux, accessServer); err != nil {
 			panic(err)
@@ -840,6 +868,12 @@ func (e *engine) runC36Call() {
 		} else if strings.HasPrefix(model, "err ") {
 			br = "call." + model[4:]
 		}
+		if waitOne {
+			br = "call.waitone." + strings.TrimPrefix(br, "call.")
+			if strings.HasSuffix(sid, "late") {
+				br = "call.waitone.late-provider"
+			}
+		}
 		if wellFormed {
 			wsrv, wok := cb.want(srv)
 			switch {
@@ -870,5 +904,30 @@ func (e *engine) runC36Call() {
 	}
 	for _, cid := range []string{"", "0OIl", b58.Encode([]byte{0x0a, 0x05, 'a'}), b58.Encode([]byte{0x08, 0x01}), b58.Encode([]byte{0xff, 0xff, 0xff})} {
 		one(cbs[0], cid, "", "", false)
+	}
+	if waitOne {
+		// a provider that appears after the lookup is on the bus: the call must be served by it
+		late := [2]string{pfx + "late", "srv-1"}
+		lmux := srpc.NewMux()
+		if err := echo.SRPCRegisterEchoer(lmux, echo.NewEchoServer(nil)); err != nil {
+			panic(err)
+		}
+		spy2 := &spyCtrl{prefix: late[0], seenCh: make(chan struct{}, 1), provide: map[[2]string]srpc.Invoker{
+			late: &tagInvoker{pair: late, inner: lmux, last: &last, mtx: &lmtx},
+		}}
+		relCh := make(chan func(), 1)
+		go func() {
+			for i := 0; i < 4000 && !spy.saw(late); i++ {
+				time.Sleep(500 * time.Microsecond)
+			}
+			rel2, err := e.bus.AddController(e.ctx, spy2, nil)
+			if err != nil {
+				rel2 = func() {}
+			}
+			relCh <- rel2
+		}()
+		provided = append(provided, late)
+		one(cbs[0], cidOf(late[0], late[1]), late[0], late[1], true)
+		(<-relCh)()
 	}
 }
